@@ -10,32 +10,57 @@ ASSUME = [
 ]
 
 
-class Rec(object):
-    def __init__(self):
-        self.items = []
+def _rec_class():
+    """neighbour layers are real YowLayers (a layer may emit / broadcast events, look at its neighbours, ...)"""
+    from yowsup.layers import YowLayer
 
-    def receive(self, d):
-        self.items.append(bytes(d))
+    class Rec(YowLayer):
+        def __init__(self):
+            YowLayer.__init__(self)
+            self.items = []
+            self.events = []
 
-    def send(self, d):
-        self.items.append(bytes(d))
+        def receive(self, d):
+            self.items.append(bytes(d))
+
+        def send(self, d):
+            self.items.append(bytes(d))
+
+        def onEvent(self, ev):
+            self.events.append(ev.getName())
+            return False
+    return Rec
 
 
 class FakeStack(object):
     def __init__(self, enabled):
         self.enabled = enabled
+        self.props = {}
 
     def getProp(self, key, default=None):
         from yowsup.layers.noise.layer_noise_segments import YowNoiseSegmentsLayer as L
-        return self.enabled if key == L.PROP_ENABLED else default
+        if key == L.PROP_ENABLED:
+            return self.enabled
+        return self.props.get(key, default)
+
+    def setProp(self, key, val):
+        self.props[key] = val
+
+    def execDetached(self, fn):
+        fn()
 
 
 def mk_layer(enabled=True):
     from yowsup.layers.noise.layer_noise_segments import YowNoiseSegmentsLayer
     l = YowNoiseSegmentsLayer()
+    Rec = _rec_class()
     up, low = Rec(), Rec()
     l.setLayers(up, low)
-    l.setStack(FakeStack(enabled))
+    up.setLayers(None, l)
+    low.setLayers(l, None)
+    st = FakeStack(enabled)
+    for x in (l, up, low):
+        x.setStack(st)
     return l, up, low
 
 
@@ -59,6 +84,9 @@ def impl_recv(enabled, chunks, limit=0):
             l.receive(bytes(c))
     except Timeout:
         return [["timeout after %d s" % limit] + up.items[:3], b""]
+    except Exception as e:
+        # receive() never raises on the unchanged layer, whatever the bytes: an exception is an observable outcome
+        return [up.items + ["raised %s: %s" % (type(e).__name__, e)], bytes(getattr(l, "_read_buffer", b""))]
     finally:
         if limit:
             signal.alarm(0)
